@@ -238,6 +238,10 @@ Not decided: that the parsed list equals the source list, hoisted inner names fo
     // "nothing is added": COMPONENTS OF takes the root components of the referenced type and only those, at the position of the
     // notation (the analysis lives with C09.splice)
     borrow(ctx, "C09", "C09.splice", "C02.splice", &mut |sub| crate::rules::c09::run(m, sub));
+    // a component that a traversal of the linker does not reach keeps its unexpanded notation, and the components it stands
+    // for are missing from the generated item (= C09.traverse / C09.detect)
+    crate::rules::c09::traverse(m, ctx, "C02.traverse");
+    crate::rules::c09::detectors(m, ctx, "C02.detect");
     // the rasn dispatcher and the generator methods agree on the kind each method is written for
     crate::rules::c18::dispatch_agreement(m, ctx, "C02.dispatch", "Rasn", "generate_type", "tld.ty");
     sym(m, ctx);
@@ -358,7 +362,7 @@ pub fn rebuild(m: &Model, ctx: &mut Ctx, rule: &str) {
     let coll = |kind: &str, el: Val, etag: Val| wrap(kind, named("SequenceOrSetOf", vec![("element_type", el), ("element_tag", etag), ("constraints", Val::List(vec![Val::Sym("SIZE-1-4".into())])), ("is_recursive", Val::Bool(false))]));
     let member = |name: &str, t: Val, ty: Val, opt: &str| named("SequenceOrSetMember", vec![("name", Val::Str(name.into())), ("tag", t), ("ty", ty), ("optionality", Val::ctor(opt)), ("is_recursive", Val::Bool(false)), ("constraints", Val::List(vec![]))]);
     let option = |name: &str, t: Val, ty: Val| named("ChoiceOption", vec![("name", Val::Str(name.into())), ("tag", t), ("ty", ty), ("is_recursive", Val::Bool(false)), ("constraints", Val::List(vec![]))]);
-    let seq = |kind: &str, members: Vec<Val>| wrap(kind, named("SequenceOrSet", vec![("members", Val::List(members)), ("extensible", Val::some(Val::int(1))), ("components_of", Val::List(vec![])), ("constraints", Val::List(vec![Val::Sym("WITH-COMPONENTS".into())]))]));
+    let seq = |kind: &str, members: Vec<Val>| wrap(kind, named("SequenceOrSet", vec![("members", Val::List(members)), ("extensible", Val::some(Val::int(1))), ("components_of", Val::List(vec![Val::Str("Base".into())])), ("constraints", Val::List(vec![Val::Sym("WITH-COMPONENTS".into())]))]));
     let choice = |options: Vec<Val>| wrap("Choice", named("Choice", vec![("options", Val::List(options)), ("extensible", Val::some(Val::int(2))), ("constraints", Val::List(vec![]))]));
     let sample = seq("Sequence", vec![
         member("kind", tag(1), class_field(), "Required"),
@@ -422,12 +426,15 @@ pub fn rebuild(m: &Model, ctx: &mut Ctx, rule: &str) {
             let want = expect(&sample);
             let mut d = vec![];
             diff("T", &want, &got, &mut d);
-            for k in ["kind", "tag", "element_tag", "optionality", "extensible", "name", "constraints"] {
+            for k in ["kind", "tag", "element_tag", "optionality", "extensible", "name", "constraints", "components_of"] {
                 ctx.oblige(rule, &format!("preserved:{}", k), true);
             }
             let mut reported = std::collections::BTreeSet::new();
             for (path, w, g) in d {
-                let field = path.rsplit(|c| c == '.' || c == ':').next().unwrap_or("").to_string();
+                let field = match path.strip_suffix(":len") {
+                    Some(p) => p.rsplit('.').next().unwrap_or("").to_string(),
+                    None => path.rsplit(|c| c == '.' || c == ':').next().unwrap_or("").to_string(),
+                };
                 if reported.insert(field.clone()) {
                     ctx.violate(rule, &format!("not-preserved:{}", field), &ty_fn.file, ty_fn.line,
                         &format!("resolve_class_reference rebuilds `{}` as `{}` (was `{}`): everything but the class-field types must come out of the rebuild unchanged — a type that mentions a class field (e.g. ATTRIBUTE.&id) would otherwise lose this part of every component it contains", path, g, w));
